@@ -17,6 +17,7 @@
   the receiver's acceptance window) is inherent to 16-bit numbering; see notes/C07.md.
 -/
 import SA.Proofs.Queue
+import SA.Proofs.DnsWrites
 import SA.Model.DnsExchange
 namespace SA.Queue
 
@@ -158,8 +159,90 @@ example : (sendAndReceive Gen.c07TimeoutTest Gen.c07Tries [.ql, .al, .st, .ql, .
 
 end SA.DnsExchange
 
+namespace SA.DnsWrites
+open SA.Queue
+
+/-! ## What `Write` reports (several application writes, failures part-way, the caller continues with b[n:])
+
+  Model: SA.Model.DnsWrites — the fragment loop of `OutQueue.Write` with its callback
+  (`outChunkAdded` → `SendAndReceive`, 5 tries), the poll loop's body, parked Writes, application
+  reads, for any script of communicator fates; every step is an SA.Queue event, so the theorems above
+  apply.  `posU` = Σ n over the client's Writes; the application stream is `streamU`, and because a
+  write of k bytes hands over `streamU posU k` and then advances by n, the concatenation of the
+  accepted prefixes Σ b[:n] is `streamU 0 posU`. -/
+
+/-- regenerated fact (`SA.Gen.c07WriteCount`): in the fragment loop `n += len(data)` runs before the
+    `if err != nil { return }` that follows `addChunk`.  Fails to compile when the order changes. -/
+theorem Facts.gen_counts_enqueued : Facts.gen.countPos = 0 := by decide
+
+/-- histories of the multi-write model: fragment size > 0, server writes of at most `Bd` bytes -/
+def WritesBounded (mtu Bd : Nat) (es : List WEv) : Prop :=
+  0 < mtu ∧ 1 ≤ Bd ∧ Bd + Cfg.gen.max + 3 ≤ MOD ∧ es.all (WEv.ok Bd) = true
+
+instance (mtu Bd : Nat) (es : List WEv) : Decidable (WritesBounded mtu Bd es) := by
+  unfold WritesBounded; infer_instance
+
+/-- **what Write reports is what was enqueued**: after any history of writes (whole, failed part-way
+    on any fragment, parked and resumed), polls and reads, under any script of communicator fates, the
+    bytes accepted at the client in the sense of `C07_safety` (`End.acc`: every fragment ever put into
+    the out-queue, delivered or still to be retransmitted) are exactly the first Σ n bytes of the
+    application's stream; and the history is a well-bounded history of SA.Queue events. -/
+theorem C07_write_reports_enqueued (sab sba mtu Bd : Nat) (fates : List XF) (es : List WEv)
+    (h : WritesBounded mtu Bd es) :
+    (runW Facts.gen mtu (start sab sba fates) es).core.sys.a.acc
+        = streamU 0 (runW Facts.gen mtu (start sab sba fates) es).posU ∧
+    (runW Facts.gen mtu (start sab sba fates) es).core.sys
+        = runS Cfg.gen mtu (init sab sba) (runW Facts.gen mtu (start sab sba fates) es).core.evs.reverse ∧
+    WellBounded Cfg.gen mtu 0 Bd (runW Facts.gen mtu (start sab sba fates) es).core.evs.reverse := by
+  obtain ⟨hm, hBd, hb, hes⟩ := h
+  have inv := runW_inv (f := Facts.gen) (sab := sab) (sba := sba) hm hBd Facts.gen_counts_enqueued es _
+    (start_inv fates) hes
+  refine ⟨inv.acc, inv.reach.run, hm, by omega, ?_⟩
+  rw [List.all_reverse]; exact inv.reach.wb
+
+/-- **reads ⊑ Σ b[:n]**: at every point of every such history the bytes released to the reader at the
+    server end are a prefix of the concatenation of the prefixes the client's Writes accepted, and they
+    are equal whenever the client's out-queue is empty (in particular after a loss-free tail). -/
+theorem C07_reads_prefix_of_reported (sab sba mtu Bd : Nat) (fates : List XF) (es : List WEv)
+    (hsab : sab < MOD) (hsba : sba < MOD) (h : WritesBounded mtu Bd es) :
+    (runW Facts.gen mtu (start sab sba fates) es).core.sys.b.inq.rel
+        <+: streamU 0 (runW Facts.gen mtu (start sab sba fates) es).posU ∧
+    ((runW Facts.gen mtu (start sab sba fates) es).core.sys.a.outq.out = [] →
+      (runW Facts.gen mtu (start sab sba fates) es).core.sys.b.inq.rel
+        = streamU 0 (runW Facts.gen mtu (start sab sba fates) es).posU) := by
+  obtain ⟨hacc, hrun, hwb⟩ := C07_write_reports_enqueued sab sba mtu Bd fates es h
+  have h1 := (C07_safety sab sba mtu 0 Bd _ hsab hsba hwb).1
+  have h2 := (C07_write_ok_delivered sab sba mtu 0 Bd _ hsab hsba hwb).1
+  rw [← hrun, hacc] at h1 h2
+  exact ⟨h1, h2⟩
+
+/-- the ordering of the seeded change: `if err != nil { return }` first, `n += len(data)` after it -/
+def Facts.countAfterReturn : Facts := { Facts.gen with countPos := 1 }
+
+/-- kernel-checked counter-example for that ordering: a 3-fragment Write whose second exchange loses its
+    query five times reports n = 1, the poll loop then delivers the second fragment, and the server end
+    has released 2 bytes: not a prefix of the 1 byte accepted.
+    (`dnswrites mtu=1 sab=0 sba=0 w3 p / ok ql ql ql ql ql`) -/
+theorem C07_witness_count_after_return :
+    (runW Facts.countAfterReturn 1 (start 0 0 [.ok, .ql, .ql, .ql, .ql, .ql]) [.w 3, .p]).posU = 1 ∧
+    ¬ ((runW Facts.countAfterReturn 1 (start 0 0 [.ok, .ql, .ql, .ql, .ql, .ql]) [.w 3, .p]).core.sys.b.inq.rel
+        <+: streamU 0 (runW Facts.countAfterReturn 1 (start 0 0 [.ok, .ql, .ql, .ql, .ql, .ql]) [.w 3, .p]).posU) := by
+  decide +kernel
+
+/-! non-vacuity: the same history with the current accounting reports n = 2, and 2 bytes are released -/
+example : (runW Facts.gen 1 (start 0 0 [.ok, .ql, .ql, .ql, .ql, .ql]) [.w 3, .p]).posU = 2 ∧
+    (runW Facts.gen 1 (start 0 0 [.ok, .ql, .ql, .ql, .ql, .ql]) [.w 3, .p]).core.sys.b.inq.rel = streamU 0 2 := by
+  decide +kernel
+
+example : WritesBounded 3 5000 [.w 7, .W 5000, .p, .D, .w 1, .N, .r 2, .R 9, .w 0] := by decide
+
+end SA.DnsWrites
+
 #print axioms SA.Queue.C07_safety
 #print axioms SA.Queue.C07_write_ok_delivered
 #print axioms SA.Queue.C07_wrap
 #print axioms SA.DnsExchange.C07_loss_absorbed
 #print axioms SA.DnsExchange.C07_witness_loss_not_absorbed
+#print axioms SA.DnsWrites.C07_write_reports_enqueued
+#print axioms SA.DnsWrites.C07_reads_prefix_of_reported
+#print axioms SA.DnsWrites.C07_witness_count_after_return
